@@ -81,10 +81,13 @@ Definition real_step_ok (mp ms : f64) (scale : f64) (mn mx : option f64) (x x' :
     match mn with Some a => fle a x' | None => true end &&
     match mx with Some b => fle x' b | None => true end)).
 
+(** an integer goes through [i64 -> f64 -> round -> i64] whenever the Bernoulli draw fires, also
+    when [Cauchy::new] fails (the f64 is then returned as is), so beyond 2^53 it may change even
+    with a zero scale: the relation does not ask for [cauchy_ok] here *)
 Definition int_step_ok (mp ms : f64) (scale : f64) (mn mx : option Z) (z z' : Z) : bool :=
   p_valid mp &&
   (Z.eqb z z' ||
-   (can_true mp && cauchy_ok scale ms &&
+   (can_true mp &&
     match mn with Some a => Z.leb a z' | None => true end &&
     match mx with Some b => Z.leb z' b | None => true end)).
 
